@@ -310,6 +310,15 @@ def c07(run: Run):
             for cnt in (None, len(vr) + 1, 2**20):
                 d = core.build_xz(f["check"], f["blocks"], index_records=vr, index_count=cnt)
                 run.add("xz in=%s" % d.hex(), oracle=bound(len(d)), tag="c07:index-count", release=True)
+    # the range decoder's comparisons at their ties: the initial code equal to / next to the first bound
+    # ((2^32 - 1 >> 11) * 0x400 = 0x7FFFFC00), all ones, zero, and the same after one decoded bit
+    for code in (0x7FFFFC00, 0x7FFFFBFF, 0x7FFFFC01, 0xFFFFFFFF, 0, 0x3FFFFC00, 0x3FFFFBFF, 0xBFFFFE00, 0xBFFFFDFF):
+        for tail in (bytes(12), b"\xff" * 12, rng.bytes(12)):
+            pay = b"\x00" + code.to_bytes(4, "big") + tail
+            for us in ("hdr", "up:5"):
+                hdr = lzma_header(rng.pick([3, 0, 8]), rng.pick([0, 4]), rng.pick([2, 0, 4]), 4096, None if us == "hdr" else "skip")
+                run.add("lzma us=%s in=%s" % (us, (hdr + pay).hex()), oracle=bound(len(pay) + 13), tag="c07:coder-ties", release=True)
+            run.add("lzma2 in=%s" % (bytes([0xE0, 0, 9, 0, len(pay) - 1, 0x5D]) + pay + b"\x00").hex(), oracle=bound(30), tag="c07:coder-ties", release=True)
     # very many complete units back to back: neither stack depth nor memory may grow with their number
     unit = core.build_xz(1, [])
     for cnt in (2, 60000):
